@@ -33,6 +33,7 @@ structure AppendSpec (s : St) (ys : List TRef) (s' : St) : Prop where
   sub : ∀ e ∈ s.tm, e ∈ s'.tm
   visited : ∀ y ∈ ys, Visited cfg s'.tm y.build
   reach : ∀ e ∈ s'.tm, e ∉ s.tm → ∃ y ∈ ys, ∃ r, y.build.strip = .named r ∧ Reach cfg r e
+  topOk : ∀ y ∈ ys, y.build = .nil ∨ topErr cfg y.build = none
 
 theorem appendType_spec {s s' : St} {y : TRef} (g : Good cfg s.tm) (h : appendType cfg s y = .ok s') :
     AppendSpec (cfg := cfg) s [y] s' := by
@@ -48,10 +49,13 @@ theorem appendType_spec {s s' : St} {y : TRef} (g : Good cfg s.tm) (h : appendTy
       split at ha
       · rename_i hnil
         have hb : y.build = .nil := by simpa using hnil
-        refine ⟨fun e he => he, ?_, fun e he hne => absurd he hne⟩
-        intro y' hy'
-        rw [List.mem_singleton.mp hy', hb]
-        exact Or.inl rfl
+        refine ⟨fun e he => he, ?_, fun e he hne => absurd he hne, ?_⟩
+        · intro y' hy'
+          rw [List.mem_singleton.mp hy', hb]
+          exact Or.inl rfl
+        · intro y' hy'
+          rw [List.mem_singleton.mp hy']
+          exact Or.inl hb
       · split at ha
         · cases ha
         · cases hr : reduce cfg (cfg.size + 1) s.tm y.build with
@@ -71,20 +75,24 @@ theorem appendType_spec {s s' : St} {y : TRef} (g : Good cfg s.tm) (h : appendTy
         · cases ha
         · split at ha
           · cases ha
-          · cases hr : reduce cfg (cfg.size + 1) s.tm y.build with
+          · rename_i hte
+            cases hr : reduce cfg (cfg.size + 1) s.tm y.build with
             | error e => simp [hr] at ha
             | ok tm1 =>
               simp only [hr, Except.ok.injEq, Option.some.injEq] at ha
               subst ha
               have sp := reduce_spec cfg _ s.tm _ tm1 hr g.inv
               obtain ⟨l, hl⟩ := sp.ext
-              refine ⟨fun e he => by rw [hl]; exact List.mem_append_left _ he, ?_, ?_⟩
+              refine ⟨fun e he => by rw [hl]; exact List.mem_append_left _ he, ?_, ?_, ?_⟩
               · intro y' hy'
                 rw [List.mem_singleton.mp hy']
                 exact sp.visited
               · intro e he hne
                 obtain ⟨r, hr', hre⟩ := sp.reach e he hne
                 exact ⟨y, List.mem_singleton.mpr rfl, r, hr', hre⟩
+              · intro y' hy'
+                rw [List.mem_singleton.mp hy']
+                exact Or.inr hte
 
 theorem appendAll_spec : ∀ (ys : List TRef) (s s' : St), Good cfg s.tm → appendAll cfg s ys = .ok s' →
     AppendSpec (cfg := cfg) s ys s' := by
@@ -93,7 +101,7 @@ theorem appendAll_spec : ∀ (ys : List TRef) (s s' : St), Good cfg s.tm → app
   | nil =>
     intro s s' g h
     simp only [appendAll, Except.ok.injEq] at h; subst h
-    exact ⟨fun e he => he, fun y hy => (by cases hy), fun e he hne => absurd he hne⟩
+    exact ⟨fun e he => he, fun y hy => (by cases hy), fun e he hne => absurd he hne, fun y hy => (by cases hy)⟩
   | cons y rest ih =>
     intro s s' g h
     simp only [appendAll] at h
@@ -103,7 +111,7 @@ theorem appendAll_spec : ∀ (ys : List TRef) (s s' : St), Good cfg s.tm → app
       simp only [h1] at h
       have sp1 := appendType_spec g h1
       have sp2 := ih s1 s' (appendType_good g h1) h
-      refine ⟨fun e he => sp2.sub e (sp1.sub e he), ?_, ?_⟩
+      refine ⟨fun e he => sp2.sub e (sp1.sub e he), ?_, ?_, ?_⟩
       · intro y' hy'
         cases hy' with
         | head => exact (sp1.visited y (List.mem_singleton.mpr rfl)).mono cfg sp2.sub
@@ -116,6 +124,10 @@ theorem appendAll_spec : ∀ (ys : List TRef) (s s' : St), Good cfg s.tm → app
           exact ⟨y', List.mem_cons_self .., r⟩
         · obtain ⟨y', hy', r⟩ := sp2.reach e he h1m
           exact ⟨y', List.mem_cons_of_mem _ hy', r⟩
+      · intro y' hy'
+        cases hy' with
+        | head => exact sp1.topOk y (List.mem_singleton.mpr rfl)
+        | tail _ hy'' => exact sp2.topOk y' hy''
 
 theorem mem_rootRefs_more {more : List TRef} {t : TRef} :
     t ∈ rootRefs cfg more ↔ t ∈ rootRefs cfg [] ∨ ∃ x ∈ more, t = x.build := by
